@@ -169,7 +169,8 @@ public:
     void element(const GenSchema& g, const std::string& qname, int type, bool complex, int depth, std::string& out, bool nillable) {
         out += "<" + qname;
         if (nillable && rng.chance(1, 3)) { out += " xsi:nil=\"true\"/>"; return; }
-        if (!complex) { out += ">" + esc(rng.chance(1, 10) ? "" : value(g, type)) + "</" + qname + ">"; return; }
+        if (!complex) { if (rng.chance(1, 6)) out += " xsi:type=\"xs:string\"";      // (an xsi:type on a simple-typed element: allowed or not, it goes through the xsi:type machinery of scanner and validator)
+            out += ">" + esc(rng.chance(1, 10) ? "" : value(g, type)) + "</" + qname + ">"; return; }
         const SgComplex* c = &g.complexes[(size_t)type];
         // xsi:type with a type derived from the declared one (exercises block / final / abstract)
         if (rng.chance(1, 5)) for (size_t k = 0; k < g.complexes.size(); k++) if (g.complexes[k].base == type && rng.coin()) { out += " xsi:type=\"" + (g.ns.empty() ? std::string() : g.prefix + ":") + g.complexes[k].name + "\""; c = &g.complexes[k]; break; }
@@ -185,7 +186,7 @@ public:
                     if (c->mixed && rng.coin()) out += "txt";
                     if (p->kind == 0) element(g, q + p->localName, p->type, p->typeIsComplex, depth + 1, out, false);
                     else if (p->kind == 1) { int ei = p->elem; for (size_t k = 0; k < g.elems.size(); k++) if (g.elems[k].substFor == ei && rng.chance(1, 3)) { ei = (int)k; break; } const SgElem& e = g.elems[(size_t)ei]; element(g, (g.ns.empty() ? std::string() : g.prefix + ":") + e.name, e.type, e.typeIsComplex, depth + 1, out, e.nillable); }
-                    else out += rng.coin() ? "<o:any xmlns:o=\"urn:other\" k=\"1\">w</o:any>" : "<loose/>";
+                    else out += rng.coin() ? std::string("<o:any xmlns:o=\"urn:other\" k=\"1\"") + (rng.chance(1, 3) ? " xsi:type=\"xs:string\"" : "") + ">w</o:any>" : std::string("<loose") + (rng.chance(1, 3) ? " xsi:type=\"xs:token\"" : "") + "/>";      // (elements a wildcard lets through, now and then with an xsi:type of their own)
                 } }
         }
         if (c->mixed && rng.coin()) out += "tail";
